@@ -22,9 +22,15 @@ def unhex(s):
 
 # ------------------------------------------------------------------ case generation
 
-def metric(j, n):
-    """metric emitted by operation j: n copies of a letter that identifies j"""
-    return bytes([0x61 + (j % 26)]) * n
+def metric(j, n, tail=None):
+    """metric emitted by operation j: n copies of a letter that identifies j; with [tail], the last byte is that one
+    (a space, a tab, a carriage return: a metric's bytes are the writer's to carry, not to tidy)"""
+    m = bytes([0x61 + (j % 26)]) * n
+    return m[:-1] + tail if tail and n >= 2 else m
+
+
+def rand_tail(rng):
+    return rng.choice([b" ", b"\t", b"\r", b"\x0b"]) if rng.random() < 0.12 else None
 
 
 def mk_case(cap, ending, ops, script):
@@ -87,7 +93,7 @@ def gen_boundary(rng, n, faults):
             target = rng.choice([left - el - 1, left - el, left - el + 1, cap - el, cap - el + 1, cap - el - 1,
                                  cap, cap + 1, 0, 1, rng.randint(0, max(1, cap))])
             ln = max(0, target)
-            ops.append(("E", metric(j, ln)))
+            ops.append(("E", metric(j, ln, rand_tail(rng))))
             if ln + el > cap:
                 pass
             elif ln + el > left:
@@ -223,7 +229,7 @@ def gen_random(rng, n, faults, maxops=200):
                 ops.append(("F",))
             else:
                 ln = rng.choice([rng.randint(0, cap + 2), rng.randint(0, max(1, cap // 3)), rng.randint(0, 40)])
-                ops.append(("E", metric(j, ln)))
+                ops.append(("E", metric(j, ln, rand_tail(rng))))
         sc = []
         if faults:
             k = 0
